@@ -881,3 +881,200 @@ Proof.
     { unfold mat_mul, mscale. clear. induction N; simpl; constructor; auto. apply mat_vec_vscale. }
     apply meq_scaled_ident in H4; auto. eapply meq_trans; eauto.
 Qed.
+
+(* ------------------------------------------------------------------ *)
+(* homogeneity: the checks scale the data of a query to integers       *)
+(* ------------------------------------------------------------------ *)
+Lemma vscale_cancel : forall c u v, ~ c == 0 -> veq (vscale c u) (vscale c v) -> veq u v.
+Proof.
+  intros c u. induction u as [|a u IH]; intros v Hc H; destruct v as [|b v]; simpl in H; inversion H; subst; constructor.
+  - rewrite !qmul_eq in H3. apply (Qmult_inj_l a b c Hc). exact H3.
+  - apply IH; auto.
+Qed.
+
+Lemma length_mscale : forall a A, length (mscale a A) = length A.
+Proof. intros. unfold mscale. apply map_length. Qed.
+
+Lemma cols_len_mscale_inv : forall n a A, cols_len n (mscale a A) -> cols_len n A.
+Proof.
+  intros n a A H. unfold cols_len, mscale in *. rewrite Forall_forall in *. intros c Hc.
+  rewrite <- (length_vscale a c). apply H. apply in_map. auto.
+Qed.
+
+Lemma mat_vec_scaled : forall n B x s t,
+  veq (mat_vec n (mscale s B) (vscale t x)) (vscale (s * t) (mat_vec n B x)).
+Proof.
+  intros. eapply veq_trans. apply mat_vec_mscale.
+  eapply veq_trans. apply vscale_veq. reflexivity. apply mat_vec_vscale.
+  apply veq_sym. apply vscale_vscale.
+Qed.
+
+Lemma check_solve_right_scale_lemma : forall n B x b s t, ~ s == 0 -> ~ t == 0 ->
+  check_solve_right n (mscale s B) (vscale t x) (vscale (s * t) b) = check_solve_right n B x b.
+Proof.
+  intros n B x b s t Hs Ht. apply eq_true_iff_eq. rewrite !check_solve_right_unpack.
+  rewrite length_mscale, length_vscale.
+  assert (Hst : ~ s * t == 0). { intro E. apply Qmult_integral in E. tauto. }
+  split; intros (L & C & Lx & S); repeat split; auto.
+  - apply cols_len_mscale_inv in C; auto.
+  - apply (vscale_cancel (s * t)); auto. eapply veq_trans; [| exact S]. apply veq_sym. apply mat_vec_scaled.
+  - apply cols_len_mscale; auto.
+  - eapply veq_trans. apply mat_vec_scaled. apply vscale_veq. reflexivity. auto.
+Qed.
+
+Lemma dot_vscale_l : forall a x y, dot (vscale a x) y == a * dot x y.
+Proof. induction x; destruct y; simpl; try (rewrite ?qmul_eq; ring). rewrite IHx. rewrite ?qmul_eq; ring. Qed.
+
+Lemma vec_mat_scaled : forall B x s t,
+  veq (vec_mat (vscale t x) (mscale s B)) (vscale (s * t) (vec_mat x B)).
+Proof.
+  intros. unfold vec_mat, mscale. induction B as [|c B IH]; simpl; constructor; auto.
+  rewrite dot_vscale_l, dot_vscale_r. rewrite ?qmul_eq; ring.
+Qed.
+
+Lemma check_solve_left_scale_lemma : forall n B x b s t, ~ s == 0 -> ~ t == 0 ->
+  check_solve_left n (mscale s B) (vscale t x) (vscale (s * t) b) = check_solve_left n B x b.
+Proof.
+  intros n B x b s t Hs Ht. apply eq_true_iff_eq. rewrite !check_solve_left_unpack.
+  rewrite length_mscale, length_vscale.
+  assert (Hst : ~ s * t == 0). { intro E. apply Qmult_integral in E. tauto. }
+  split; intros (L & C & Lx & S); repeat split; auto.
+  - apply cols_len_mscale_inv in C; auto.
+  - apply (vscale_cancel (s * t)); auto. eapply veq_trans; [| exact S]. apply veq_sym. apply vec_mat_scaled.
+  - apply cols_len_mscale; auto.
+  - eapply veq_trans. apply vec_mat_scaled. apply vscale_veq. reflexivity. auto.
+Qed.
+
+(* ---- tolerance version ---- *)
+Lemma qmax_comp : forall a a' b b', a == a' -> b == b' -> qmax a b == qmax a' b'.
+Proof.
+  intros a a' b b' Ha Hb. unfold qmax.
+  destruct (Qle_bool a b) eqn:E1; destruct (Qle_bool a' b') eqn:E2; auto.
+  - apply Qle_bool_iff in E1. assert (~ a' <= b') by (intro K; apply Qle_bool_iff in K; congruence). lra.
+  - apply Qle_bool_iff in E2. assert (~ a <= b) by (intro K; apply Qle_bool_iff in K; congruence). lra.
+Qed.
+
+Lemma norm_inf_veq : forall u v, veq u v -> norm_inf u == norm_inf v.
+Proof. induction 1; simpl. reflexivity. apply qmax_comp; auto. rewrite H. reflexivity. Qed.
+
+Lemma qmax_scale : forall c a b, 0 <= c -> qmax (c * a) (c * b) == c * qmax a b.
+Proof.
+  intros c a b Hc. unfold qmax.
+  destruct (Qle_bool (c * a) (c * b)) eqn:E1; destruct (Qle_bool a b) eqn:E2; try reflexivity.
+  - apply Qle_bool_iff in E1. assert (~ a <= b) by (intro K; apply Qle_bool_iff in K; congruence). nra.
+  - apply Qle_bool_iff in E2. assert (~ c * a <= c * b) by (intro K; apply Qle_bool_iff in K; congruence). nra.
+Qed.
+
+Lemma norm_inf_vscale : forall c v, norm_inf (vscale c v) == Qabs c * norm_inf v.
+Proof.
+  induction v. simpl. ring.
+  unfold vscale in *. cbn [map norm_inf fold_right] in *.
+  rewrite qmul_eq. eapply Qeq_trans. apply qmax_comp. apply Qabs_Qmult. exact IHv.
+  apply qmax_scale. apply Qabs_nonneg.
+Qed.
+
+Lemma vsub_vscale : forall c u v, veq (vsub (vscale c u) (vscale c v)) (vscale c (vsub u v)).
+Proof. induction u; destruct v; simpl; constructor. rewrite !qmul_eq. ring. apply IHu. Qed.
+
+Lemma abs_mat_mscale : forall s B, meq (abs_mat (mscale s B)) (mscale (Qabs s) (abs_mat B)).
+Proof.
+  intros. unfold abs_mat, mscale. induction B as [|c B IH]; simpl; constructor; auto.
+  clear. unfold vscale. induction c as [|a c IHc]. constructor.
+  cbn [map]. constructor; auto. rewrite !qmul_eq. apply Qabs_Qmult.
+Qed.
+
+Lemma Qabs_Qabs : forall a, Qabs (Qabs a) == Qabs a.
+Proof. intros. apply Qabs_pos. apply Qabs_nonneg. Qed.
+
+Lemma norm_inf_mat_mscale : forall n s B, norm_inf_mat n (mscale s B) == Qabs s * norm_inf_mat n B.
+Proof.
+  intros. unfold norm_inf_mat. rewrite length_mscale.
+  eapply Qeq_trans. apply norm_inf_veq. eapply veq_trans. apply mat_vec_meq. apply abs_mat_mscale. apply mat_vec_mscale.
+  rewrite norm_inf_vscale. rewrite Qabs_Qabs. reflexivity.
+Qed.
+
+Lemma vsum_abs_vscale : forall s c, vsum_abs (vscale s c) == Qabs s * vsum_abs c.
+Proof.
+  intros s c. unfold vscale. induction c as [|a c IHc]. simpl. ring.
+  change (Qabs (qmul s a) + vsum_abs (map (fun c0 => qmul s c0) c) == Qabs s * (Qabs a + vsum_abs c)).
+  rewrite qmul_eq, Qabs_Qmult, IHc. ring.
+Qed.
+
+Lemma norm_one_mat_mscale : forall s B, norm_one_mat (mscale s B) == Qabs s * norm_one_mat B.
+Proof.
+  intros. unfold norm_one_mat.
+  assert (E : veq (map vsum_abs (mscale s B)) (vscale (Qabs s) (map vsum_abs B))).
+  { unfold mscale. induction B; simpl; constructor; auto. rewrite qmul_eq. apply vsum_abs_vscale. }
+  rewrite (norm_inf_veq _ _ E). rewrite norm_inf_vscale, Qabs_Qabs. reflexivity.
+Qed.
+
+Lemma wf_mat_mscale : forall n s B, wf_mat n (mscale s B) = wf_mat n B.
+Proof.
+  intros. apply eq_true_iff_eq. rewrite !wf_mat_iff, length_mscale. split; intros [L C]; split; auto.
+  apply cols_len_mscale_inv in C; auto. apply cols_len_mscale; auto.
+Qed.
+
+Lemma wf_vec_vscale : forall n t x, wf_vec n (vscale t x) = wf_vec n x.
+Proof. intros. unfold wf_vec. rewrite length_vscale. reflexivity. Qed.
+
+Lemma Qle_bool_scale : forall c a b a' b', 0 < c -> a' == c * a -> b' == c * b -> Qle_bool a' b' = Qle_bool a b.
+Proof.
+  intros c a b a' b' Hc Ha Hb. apply eq_true_iff_eq. rewrite !Qle_bool_iff. rewrite Ha, Hb.
+  apply Qmult_le_l. auto.
+Qed.
+
+Lemma check_residual_right_scale_lemma : forall n B x b eps s t, 0 < s -> 0 < t ->
+  check_residual_right n (mscale s B) (vscale t x) (vscale (s * t) b) eps = check_residual_right n B x b eps.
+Proof.
+  intros n B x b eps s t Hs Ht. unfold check_residual_right.
+  rewrite wf_mat_mscale, !wf_vec_vscale. f_equal.
+  assert (Hst : 0 < s * t) by nra.
+  assert (As : Qabs s == s) by (apply Qabs_pos; lra).
+  assert (At : Qabs t == t) by (apply Qabs_pos; lra).
+  assert (Ast : Qabs (s * t) == s * t) by (apply Qabs_pos; lra).
+  apply (Qle_bool_scale (s * t)); auto.
+  - unfold residual_right.
+    rewrite (norm_inf_veq _ (vscale (s * t) (vsub (mat_vec n B x) b))).
+    + rewrite norm_inf_vscale, Ast. reflexivity.
+    + eapply veq_trans. apply vsub_veq. apply mat_vec_scaled. apply veq_refl. apply vsub_vscale.
+  - unfold tol_right. rewrite norm_inf_mat_mscale, !norm_inf_vscale, As, At, Ast. ring.
+Qed.
+
+Lemma check_residual_left_scale_lemma : forall n B x b eps s t, 0 < s -> 0 < t ->
+  check_residual_left n (mscale s B) (vscale t x) (vscale (s * t) b) eps = check_residual_left n B x b eps.
+Proof.
+  intros n B x b eps s t Hs Ht. unfold check_residual_left.
+  rewrite wf_mat_mscale, !wf_vec_vscale. f_equal.
+  assert (Hst : 0 < s * t) by nra.
+  assert (As : Qabs s == s) by (apply Qabs_pos; lra).
+  assert (At : Qabs t == t) by (apply Qabs_pos; lra).
+  assert (Ast : Qabs (s * t) == s * t) by (apply Qabs_pos; lra).
+  apply (Qle_bool_scale (s * t)); auto.
+  - unfold residual_left.
+    rewrite (norm_inf_veq _ (vscale (s * t) (vsub (vec_mat x B) b))).
+    + rewrite norm_inf_vscale, Ast. reflexivity.
+    + eapply veq_trans. apply vsub_veq. apply vec_mat_scaled. apply veq_refl. apply vsub_vscale.
+  - unfold tol_left. rewrite norm_one_mat_mscale, !norm_inf_vscale, As, At, Ast. ring.
+Qed.
+
+Lemma check_close_scale_lemma : forall x y eps t, 0 < t ->
+  check_close (vscale t x) (vscale t y) eps = check_close x y eps.
+Proof.
+  intros x y eps t Ht. unfold check_close. rewrite !length_vscale. f_equal.
+  assert (At : Qabs t == t) by (apply Qabs_pos; lra).
+  apply (Qle_bool_scale t); auto.
+  - rewrite (norm_inf_veq _ _ (vsub_vscale t x y)). rewrite norm_inf_vscale, At. reflexivity.
+  - rewrite !norm_inf_vscale, At. ring.
+Qed.
+
+Lemma residual_check_scale_invariant_lemma :
+  forall n B x b eps s t, 0 < s -> 0 < t ->
+  check_residual_right n (mscale s B) (vscale t x) (vscale (s * t) b) eps = check_residual_right n B x b eps /\
+  check_residual_left n (mscale s B) (vscale t x) (vscale (s * t) b) eps = check_residual_left n B x b eps.
+Proof. intros. split. apply check_residual_right_scale_lemma; auto. apply check_residual_left_scale_lemma; auto. Qed.
+
+Lemma exact_check_scale_invariant_lemma :
+  forall n B x b s t, ~ s == 0 -> ~ t == 0 ->
+  check_solve_right n (mscale s B) (vscale t x) (vscale (s * t) b) = check_solve_right n B x b /\
+  check_solve_left n (mscale s B) (vscale t x) (vscale (s * t) b) = check_solve_left n B x b.
+Proof. intros. split. apply check_solve_right_scale_lemma; auto. apply check_solve_left_scale_lemma; auto. Qed.
